@@ -1,4 +1,5 @@
 import Oidc.Proofs.World
+import Oidc.Proofs.WorldHist3
 import Oidc.Proofs.Handler2
 /-! # C11 — logout ends the session for every session shape (property theorems only) -/
 namespace Oidc.Props.C11
@@ -17,6 +18,43 @@ theorem logout_ends (c : Cfg) (e0 e1 : Env) (r0 r1 : Req) (j : Jar) (fuel : Nat)
     (r1.path = c.callback → r1.path ≠ c.logout →
       (serveJar c e1 r1 j1 fuel).1.calls = [] ∧ (serveJar c e1 r1 j1 fuel).1.saved = []) :=
   Oidc.World.logout_ends c e0 e1 r0 r1 j fuel hlogout hx
+
+/-- **history.** after the logout response has been applied, take any sequence `post` of further requests of that browser,
+    served by any instances (`CodecOK`: they share the one gzip+base64 codec; `hfuel`: the chunk-loading loop of the model is
+    given enough fuel for every session this history stores — the code's loop is unbounded).  If a request at the end of it is
+    forwarded, then some request of `post` was a callback that completed a new login: it stored the session of an ID token that
+    passed `VerifyToken`.  In particular no refresh can bring the session back: the jar holds no refresh token until then. -/
+theorem no_forward_until_new_login (c : Cfg) (fuel : Nat) (d : Str → Str) (hm : 0 < c.maxSz)
+    (e0 : Env) (r0 : Req) (j : Jar) (hlogout : excludedPath c r0.path = false ∧ r0.path = c.logout)
+    (post : List (Env × Req)) (henv : ∀ p ∈ post, CodecOK d p.1)
+    (hfuel : ∀ o ∈ (runBrowser c fuel (serveJar c e0 r0 j fuel).2 post).2, ∀ vl ∈ o.saved, ∀ k, (vl.chunks k).length ≤ fuel)
+    (e : Env) (r : Req) (hde : e.decompress = d) (hd : List (Str × Str))
+    (hf : (serveJar c e r (runBrowser c fuel (serveJar c e0 r0 j fuel).2 post).1 fuel).1.resp = .forward hd) :
+    ∃ p ∈ post.zip (runBrowser c fuel (serveJar c e0 r0 j fuel).2 post).2, StepLogin c p :=
+  Oidc.World.after_logout_no_forward_until_login c fuel d hm e0 r0 j hlogout post henv hfuel e r hde hd hf
+
+/-- a jar without the authenticated flag and without refresh token stays so over any history in which no callback completes
+    a login (the invariant behind the statement above; it also covers a browser that never logged in) -/
+theorem dead_stays_dead (c : Cfg) (fuel : Nat) (d : Str → Str) (hm : 0 < c.maxSz) (steps : List (Env × Req)) (j : Jar)
+    (hd : DeadJar d fuel j) (henv : ∀ p ∈ steps, CodecOK d p.1)
+    (hfuel : ∀ o ∈ (runBrowser c fuel j steps).2, ∀ vl ∈ o.saved, ∀ k, (vl.chunks k).length ≤ fuel) :
+    DeadJar d fuel (runBrowser c fuel j steps).1 ∨ ∃ p ∈ steps.zip (runBrowser c fuel j steps).2, StepLogin c p :=
+  Oidc.World.dead_history c fuel d hm steps j hd henv hfuel
+
+/-! non-vacuity: an environment with a round-tripping codec; the empty jar is dead -/
+def exE : Env where
+  now := 0
+  tok := fun _ => { parses := false, verdict := fun _ => .invalid, exp := 0, email := none, nonce := none, groups := .absent, roles := .absent }
+  verifyTok := fun _ => false
+  exchange := fun _ _ _ => .failed
+  refresh := fun _ => .error false
+  rnd := fun _ => []
+  s256 := id
+  exec := fun _ _ => none
+  compress := fun t => 'z' :: t
+  decompress := List.tail
+example : CodecOK List.tail exE := ⟨rfl, fun _ => rfl, fun _ => by simp [exE]⟩
+example : DeadJar List.tail 3 (fun _ => none) := ⟨rfl, by decide⟩
 
 /-- the logout response: every loaded cookie cleared, no provider call, redirect to the end-session endpoint with the ID token
     as hint and the post-logout URI when both are known, otherwise to the post-logout URI -/
